@@ -19,6 +19,8 @@ func hookPacketizerTimestamp(p rtp.Packetizer) (uint32, bool) {
 	return rtp.VerifPacketizerTimestamp(p)
 }
 
-func hookRetainedH264Payloader(p *codecs.H264Payloader) ([][]byte, bool) { return p.VerifRetained(), true }
-func hookRetainedH264Packet(p *codecs.H264Packet) ([][]byte, bool)       { return p.VerifRetained(), true }
-func hookRetainedAV1(p *codecs.AV1Depacketizer) ([][]byte, bool)         { return p.VerifRetained(), true }
+func hookRetainedH264Payloader(p *codecs.H264Payloader) ([][]byte, bool) {
+	return p.VerifRetained(), true
+}
+func hookRetainedH264Packet(p *codecs.H264Packet) ([][]byte, bool) { return p.VerifRetained(), true }
+func hookRetainedAV1(p *codecs.AV1Depacketizer) ([][]byte, bool)   { return p.VerifRetained(), true }
